@@ -128,6 +128,8 @@ def to_dict(ty, keys, ensures, extra=()):
             'rewrites': [PUBFN, body_start(lits(*keys))] + list(extra)}
 
 
+FILTER_INLINED = r'let \1\2 = match \3 { Some(v__) => { let keep__: bool = { let \4 = &v__; \5 }; if keep__ { Some(v__) } else { None } }, None => None };'
+
 UNIT = {
  'name': 'build',
  'doc': 'documents built from scratch: page tree with promised references, trailer assembly, derived writers of Page/PageTree/Catalog',
@@ -151,6 +153,9 @@ UNIT = {
   'struct PageTree': {'kind': 'decl', 'file': T, 'header': r'^pub struct PageTree$'},
   'struct Page': {'kind': 'decl', 'file': T, 'header': r'^pub struct Page$'},
   'struct Catalog': {'kind': 'decl', 'file': T, 'header': r'^pub struct Catalog$'},
+  # the information dictionary with its nine optional entries (so that code that looks at the entries reaches the verifier)
+  'enum Trapped': {'kind': 'decl', 'file': T, 'header': r'^pub enum Trapped$'},
+  'struct InfoDict': {'kind': 'decl', 'file': T, 'header': r'^pub struct InfoDict$'},
   'struct Trailer': {'kind': 'decl', 'file': FILE, 'header': r'^pub struct Trailer$'},
   'struct PageBuilder': {'kind': 'decl', 'file': B, 'header': r'^pub struct PageBuilder$'},
   'struct CatalogBuilder': {'kind': 'decl', 'file': B, 'header': r'^pub struct CatalogBuilder$', 'rewrites': pub('pages')},
@@ -220,6 +225,13 @@ UNIT = {
           {'rule': 'R1', 'regex': r'\A\s*\{', 'replace': '{ let ghost pre = self.storage.objs(); let ghost bs = catalog.pages@; let ghost info0 = self.info;'},
           {'rule': 'R1', 'find': 'let mut trailer = Trailer {',
            'replace': 'let ghost mid = self_.storage.objs(); let ghost cat0 = catalog; let mut trailer = Trailer {'},
+          # R8 by shape: forwarding closure of Option::filter inlined (std: `Some(v)` is kept iff the predicate holds of `&v`); receiver,
+          # binder and predicate text verbatim.  `Option::take` / `is_some` / `is_none` are read through vstd.
+          # (block-bodied predicate first: its text ends at the first `})`+`;`; then the expression-bodied one: ends at the first `)`+`;`)
+          {'rule': 'R8', 'count': '*', 'regex': r'let\s+(mut\s+)?(\w+)\s*=\s*([^;|]*?)\s*\.\s*filter\(\s*\|\s*(\w+)\s*\|\s*(\{.*?\})\s*\)\s*;',
+           'replace': FILTER_INLINED},
+          {'rule': 'R8', 'count': '*', 'regex': r'let\s+(mut\s+)?(\w+)\s*=\s*([^;|]*?)\s*\.\s*filter\(\s*\|\s*(\w+)\s*\|\s*(?!\{)(.*?)\)\s*;',
+           'replace': FILTER_INLINED},
           {'rule': 'R7', 'find': 'vec!["foo".into(), "bar".into()]', 'replace': 'hoist_placeholder_id()'},
           {'rule': 'R1', 'find': 'self_.storage.save(&mut trailer)?;',
            'replace': 'let ghost post = self_.storage.objs(); self_.storage.save(&mut trailer)?; '
